@@ -64,6 +64,7 @@ func c21Gen(t *rapid.T) c21Case {
 		"peeropen", "peeropen", "peeropen", "peeropen", "peeropen", "peeropen", "peeruse", "peeruse",
 		"fullclose", "fullclose", "fullclose", "fullclose", "openclose", "openclose", "openclose",
 		"peerfin", "peerreset", "appclose", "appclose", "appcloseread", "appclosewrite", "appreset",
+		"localclose", "localclose", "localclose", "localclose", "localappclose", "localpeerfin",
 		"ack", "ack", "advance",
 	}
 	frame := rapid.SampledFrom(c21PeerFrames)
@@ -91,7 +92,7 @@ func c21Gen(t *rapid.T) c21Case {
 		case "peeruse":
 			s.N = rapid.Int64Range(0, 200).Draw(t, "num")
 			s.F = frame.Draw(t, "frame")
-		case "openclose":
+		case "openclose", "localclose":
 		default: // operations on an accepted peer stream: slot
 			s.N = rapid.Int64Range(0, 7).Draw(t, "slot")
 		}
@@ -215,10 +216,13 @@ func c21Run(t *testing.T, c c21Case, r *vp.Rec) error {
 		closedCnt[id.streamType()]++
 		closedAny = true
 	}
+	localSeen := map[streamID]bool{} // locally opened streams the peer knows of
+	localClosed := false
 	checkLocal := func(id streamID, what string) error {
 		if id.initiator() != side {
 			return nil
 		}
+		localSeen[id] = true
 		if id.num() >= peerMax[id.streamType()] {
 			return fmt.Errorf("%s for locally opened stream %v (number %d) although the peer's largest MAX_STREAMS (%v) is %d", what, id, id.num(), id.streamType(), peerMax[id.streamType()])
 		}
@@ -275,10 +279,12 @@ func c21Run(t *testing.T, c c21Case, r *vp.Rec) error {
 	}
 
 	var pending []*c21Async
+	var locals [streamTypeCount][]*Stream
 	gotLocal := func(s *Stream, how string) error {
 		s.SetReadContext(ctx)
 		s.SetWriteContext(ctx)
 		ty := s.id.streamType()
+		locals[ty] = append(locals[ty], s)
 		if s.id.initiator() != side {
 			return fmt.Errorf("%s returned stream %v, which is not locally initiated", how, s.id)
 		}
@@ -505,6 +511,42 @@ func c21Run(t *testing.T, c c21Case, r *vp.Rec) error {
 				return err
 			}
 			tc.writeAckForAll()
+		case "localclose":
+			// the app opens a stream of its own and closes it completely: this must
+			// not give the peer any stream credit
+			s, err := tc.conn.newLocalStream(ctx, ty)
+			if err != nil {
+				// at the peer's limit: the peer grants one more stream first
+				peerMax[ty] = min(peerMax[ty]+1, maxStreamsLimit)
+				tc.writeFrames(packetType1RTT, debugFrameMaxStreams{streamType: ty, max: peerMax[ty]})
+				if s, err = tc.conn.newLocalStream(ctx, ty); err != nil {
+					r.Class("local-open-refused")
+					break
+				}
+			}
+			if err := gotLocal(s, "NewStream"); err != nil {
+				return err
+			}
+			s.Write([]byte{1})
+			s.Close()
+			if err := drain(); err != nil {
+				return err
+			}
+			if ty == bidiStream && localSeen[s.id] {
+				tc.writeFrames(packetType1RTT, debugFrameStream{id: s.id, fin: true})
+			}
+			tc.writeAckForAll()
+			localClosed = true
+		case "localappclose":
+			if l := locals[ty]; len(l) > 0 {
+				l[int(st.N)%len(l)].Close()
+			}
+		case "localpeerfin":
+			if l := locals[bidiStream]; len(l) > 0 {
+				if s := l[int(st.N)%len(l)]; localSeen[s.id] {
+					tc.writeFrames(packetType1RTT, debugFrameStream{id: s.id, fin: true})
+				}
+			}
 		case "ack":
 			tc.writeAckForAll()
 		case "advance":
@@ -540,6 +582,15 @@ func c21Run(t *testing.T, c c21Case, r *vp.Rec) error {
 	}
 	if closedAny {
 		r.Class("peer-stream-closed")
+	}
+	if localClosed {
+		r.Class("local-stream-fully-closed")
+		for _, ty := range []streamType{bidiStream, uniStream} {
+			if peerOpened[ty] > closedCnt[ty] && peerOpened[ty]+8 > adv[ty] {
+				r.Class("local-close-while-peer-near-limit")
+				break
+			}
+		}
 	}
 	if refusedThenOpened {
 		r.Class("refused-then-opened")
